@@ -630,10 +630,144 @@ func reopenVersusDelete(s *verifh.Sink, base string) {
 	s.Count("c14.reopen_vs_delete.delete_first", deleteWon)
 }
 
+// expiredViews: the database-level selection (the one queries and the read-only statistics pass use) also hides a
+// segment whose whole range has passed the retention deadline but which retention has not removed yet. Every
+// sequence of {query holds a reference, statistics peek, release, clock passes the expiry, clock back, idle close}
+// up to a fixed length runs on one segment. Oracle (conservation): a call changes the segment's reference count by
+// exactly the number of references it hands out; at quiescence nothing keeps the segment from idle-closing and
+// retention removes its directory once it is expired.
+func expiredViews(s *verifh.Sink, base string) {
+	names := []string{"query-select", "stats-peek", "release", "clock-past-expiry", "clock-back", "idle-close"}
+	maxLen := verifh.Pick(4, 6)
+	at := time.Date(2024, 5, 10, 3, 0, 0, 0, time.UTC)
+	var seq []int
+	var count int64
+	var rec func()
+	rec = func() {
+		if len(seq) > 0 {
+			count++
+			v, seg, err := newOneSegmentDB(base, at)
+			if err != nil {
+				s.Violation("c14:setup", map[string]any{"err": err.Error()})
+				return
+			}
+			ttl := IntervalRule{DAY, 7}.estimatedDuration()
+			tr := timestamp.NewInclusiveTimeRange(seg.Start.Add(-time.Hour), seg.End.Add(time.Hour))
+			held := 0
+			expired, holdsWhileExpired := false, false
+			bad := ""
+			ref := func() int { return int(atomic.LoadInt32(&seg.refCount)) }
+			sel := func(reopen bool) {
+				before := ref()
+				segs, err := v.db.SelectSegments(tr, reopen)
+				if err != nil {
+					bad = "selection failed: " + err.Error()
+					return
+				}
+				got := 0
+				for _, x := range segs {
+					if x.GetTimeRange().Start.Equal(seg.Start) {
+						got++
+					}
+				}
+				if reopen {
+					// a real read: one reference per returned segment
+					if d := ref() - before; d != got {
+						bad = fmt.Sprintf("SelectSegments(reopen=true) handed out %d reference(s) to the segment but its count moved by %d (expired=%v, held by others=%d)", got, d, expired, held)
+					}
+					held += got
+				} else {
+					// a read-only peek pins only what is in use; releasing everything it returned must leave the count as it was
+					for _, x := range segs {
+						x.DecRef()
+					}
+					if d := ref() - before; d != 0 {
+						bad = fmt.Sprintf("a read-only peek (%d segment(s) returned, all released again) moved the segment's reference count by %d (expired=%v, held by others=%d)", len(segs), d, expired, held)
+					}
+				}
+			}
+			var hist []string
+			for i, op := range seq {
+				hist = append(hist, names[op])
+				if p := safely(func() {
+					switch op {
+					case 0:
+						sel(true)
+					case 1:
+						sel(false)
+					case 2:
+						if held > 0 {
+							seg.DecRef()
+							held--
+						}
+					case 3:
+						v.clock.Set(seg.End.Add(ttl).Add(time.Millisecond))
+						expired = true
+					case 4:
+						v.clock.Set(at)
+						expired = false
+					case 5:
+						seg.closeIfIdle(math.MaxInt64)
+					}
+				}); p != "" {
+					bad = "panic: " + p
+				}
+				if expired && held > 0 {
+					holdsWhileExpired = true
+				}
+				if bad == "" && ref() != held {
+					bad = fmt.Sprintf("reference count %d with %d holder(s)", ref(), held)
+				}
+				if bad != "" {
+					bad = fmt.Sprintf("step %d (%s): %s", i, names[op], bad)
+					break
+				}
+			}
+			if bad == "" {
+				for held > 0 {
+					seg.DecRef()
+					held--
+				}
+				if ref() != 0 {
+					bad = fmt.Sprintf("all holders released, reference count %d", ref())
+				} else {
+					v.clock.Set(seg.End.Add(ttl).Add(time.Millisecond))
+					if _, err := v.sc.remove(v.sc.getRetentionDeadline()); err != nil {
+						bad = "retention failed: " + err.Error()
+					} else if o := observe(seg); o.open || o.dir {
+						bad = fmt.Sprintf("expired, unreferenced and selected for deletion, but open=%v dir=%v", o.open, o.dir)
+					}
+				}
+			}
+			s.Case(fmt.Sprint("expired-views/", hist), holdsWhileExpired)
+			if count <= 1 {
+				s.Sample(map[string]any{"sequence": hist, "oracle": "reference count moves by exactly the references handed out; nothing left at quiescence"})
+			}
+			if bad != "" {
+				s.Violation(fmt.Sprintf("c14:expired-views:%v", hist), map[string]any{"sequence": hist, "discrepancy": bad})
+			}
+			dir := v.dir
+			v.db.Close()
+			os.RemoveAll(dir)
+		}
+		if len(seq) == maxLen {
+			return
+		}
+		for op := 0; op < len(names); op++ {
+			seq = append(seq, op)
+			rec()
+			seq = seq[:len(seq)-1]
+		}
+	}
+	rec()
+	s.Count("c14.expired_view_sequences", count)
+}
+
 func TestVerifC14(t *testing.T) {
 	s := verifh.S()
 	base := filepath.Join(verifh.Scratch(), "c14")
 	sequential(s, base)
+	expiredViews(s, base)
 	concurrent(s, base)
 	reopenVersusDelete(s, base)
 	partial(s, base)
